@@ -49,6 +49,40 @@ Theorem C19_exact : forall g secrets seeds,
 Proof. exact secrets_ok_spec. Qed.
 Print Assumptions C19_exact.
 
+(* "on every path": the sink of a secret is a union, so one random origin would hide a constant, cached
+   or caller-supplied one.  The translator therefore lists every alternative origin of the value that
+   reaches a secret (definition site, harness/flowgraph/sites.go) and each site is held to the standard
+   of the secret itself: an OS source flows into it, no math/rand / clock / Seed node does.  A site
+   whose origins are neutral only fails. *)
+Theorem C19_every_site_os_fed : forall g secrets seeds sites,
+  secrets_ok g secrets seeds = true -> sites_ok g seeds sites = true ->
+  forall secret l, In (secret, l) sites ->
+    l <> [] /\
+    forall site, In site l ->
+      flows g site secret /\
+      (forall n k, flows g n site -> kind_at g n k -> k <> KPrng /\ k <> KTime /\ k <> KSeed) /\
+      (exists n, flows g n site /\ kind_at g n KOS) /\
+      (forall sd, In sd seeds -> ~ flows g sd site).
+Proof.
+  intros g secrets seeds sites H1 H2 secret l Hin. apply secrets_ok_spec in H1. destruct H1 as [Hwf _].
+  destruct (proj1 (sites_ok_spec g seeds sites Hwf) H2 secret l Hin) as [Hne Hl]. split; [assumption|].
+  intros site Hs. destruct (Hl site Hs) as [Hf (_ & A & B & C)]. auto.
+Qed.
+Print Assumptions C19_every_site_os_fed.
+
+Theorem C19_sites_exact : forall g seeds sites, wf g ->
+  (sites_ok g seeds sites = true <->
+   forall secret l, In (secret, l) sites ->
+     l <> [] /\ forall site, In site l -> flows g site secret /\ secret_spec g seeds site).
+Proof. exact sites_ok_spec. Qed.
+Print Assumptions C19_sites_exact.
+
+(* secret 0 is fed by two alternatives 1 (OS) and 6 (a constant): the union passes, the per-site check does not *)
+Example C19_example_union_hides_constant :
+  let g := [(0, (KNeutral, [1; 6])); (1, (KNeutral, [2])); (2, (KOS, [])); (6, (KNeutral, [7])); (7, (KNeutral, []))] in
+  secrets_ok g [0] [] = true /\ sites_ok g [] [(0, [1; 6])] = false /\ sites_ok g [] [(0, [1])] = true.
+Proof. vm_compute. repeat split; reflexivity. Qed.
+
 (* the hypotheses are satisfiable: secret 0 <- buffer 1 <- crypto/rand.Read 2, with an unrelated Seed site 3 *)
 Example C19_example_ok :
   secrets_ok [(0, (KNeutral, [1])); (1, (KNeutral, [2])); (2, (KOS, [])); (3, (KSeed, [4])); (4, (KTime, []))] [0] [3] = true.
